@@ -786,6 +786,11 @@ func (f *Frame) execMakeMap(cur *blockCur, x *ssa.MakeMap) {
 	cur.st = cur.st.set(kd, fmt.Sprintf("(store %s %s ((as const (Array %s Bool)) false))", cur.st.get(kd), ref, c.so.sortOf(mt.Key())))
 	cur.st = cur.st.set(kl, fmt.Sprintf("(store %s %s 0)", cur.st.get(kl), ref))
 	f.setVal(x, Val{T: x.Type(), S: ref})
+	if f.callerFrame == nil && !escapes(x) {
+		// a map the function made and never hands to anyone: unknown code cannot touch it
+		_, kv, _ := f.mapKeys(mt)
+		c.localObjs = append(c.localObjs, localObj{ref: ref, keys: []HeapKey{kd, kv, kl}})
+	}
 }
 
 func (f *Frame) execMapUpdate(cur *blockCur, x *ssa.MapUpdate) {
